@@ -72,6 +72,7 @@ func rulesC06(c *Ctx) {
 	R.Rule("R3", "decode error => no operation call; every handler path writes one response", 20)
 	R.Rule("R4", "what the pre-checks test is what storage enforces: the statements on the spent, pending and signature tables bind each column to its own unmodified value (a key stored under a transformed form - lower-cased, trimmed - lets two requests that pass the duplicate checks collide on the key after the inputs were spent; shared with C15.R5)", 10)
 	c.ruleSQLAgreement("R4", map[string]bool{"proofs": true, "pending_proofs": true, "blind_signatures": true})
+	c.ruleKeysCompareExactly("R4")
 	R.Rule("R5", "the signatures are stored under exactly the B_ strings the duplicate / already-signed checks compared (shared with C15.R1): no normalisation between the check and the key", 2)
 	c.ruleSigsSavedForOutputs("R5")
 	R.Rule("R8", "no typed-nil error: every pointer converted to an error value in the mint is never nil (the handlers type-assert errors to *cashu.Error and read its fields)", 20)
